@@ -38,6 +38,8 @@ let b01 b = if b then "1" else "0"
 
 type dist = Undef | Panic | D of float
 
+let p2_of cls = String.length cls > 2 && String.sub cls 0 2 = "p_"
+
 let parse_dist s = match s with
   | "U" -> Undef | "P" -> Panic
   | h -> D (float_of_bits_hex h)
@@ -62,7 +64,13 @@ let () =
         let fl = pre "f_" in
         (* p_<name>: a lattice case scaled by an exact power of two; read exactly, brought back to
            integers by the common power of two, judged like a lattice case (4 ulp, witness oracle) *)
-        let p2 = pre "p_" in
+        let px = pre "x_" in
+        (* x_<name>: the same with an extreme exponent (2^-530 .. 2^496, the range in which every
+           product of two ordinate differences is still exact in float64): the exact answer is the
+           lattice answer times the power of two, the true distance is a normal float64, so the
+           case is judged like a p_ case (exact Q arithmetic throughout: no float of the driver
+           enters a verdict except the envelope comparison of two implementation outputs) *)
+        let p2 = p2_of cls || px in
         let rd x = if fl || p2 then parse_fdump x else zq_geom (parse_zdump x) in
         let a = rd f.(2) in
         let b = rd f.(3) in
@@ -84,6 +92,10 @@ let () =
         if not admitted then begin count "float_excluded_clearance"; raise Exit end;
         if fl then count "float_admitted";
         if p2 then count "pow2_cases";
+        if px then begin
+          count "pow2_extreme_cases";
+          count (if kscale > 0 then "pow2_extreme_tiny" else "pow2_extreme_huge");
+          if not ea && not eb then count "pow2_extreme_nonempty" end;
         note_case (f.(2) ^ "|" ^ f.(3)) (not ea && not eb);
         count ("pair_" ^ type_tag a ^ "-" ^ type_tag b);
         if not valid then count "invalid_input";
